@@ -2,6 +2,7 @@ package c03btree
 
 import (
 	"fmt"
+	"math"
 
 	"github.com/pinealctx/neptune/ds/tree"
 	"github.com/pinealctx/neptune/ds/tree/btree"
@@ -163,6 +164,11 @@ func genWOp(t *rapid.T, m *Model, d keyDomain, delWeight int, ver int) WOp {
 		if op.N < 0 {
 			op.N = 0
 		}
+		if rapid.IntRange(0, 11).Draw(t, "nolimit") == 0 {
+			// "any limit n": the natural ways of saying "no limit" (values between 2^20 and 2^47 are left out: a wrapper
+			// that preallocates n slots would try to get gigabytes for them before anything can be judged)
+			op.N = rapid.SampledFrom([]int{math.MaxInt, math.MaxInt - 1, math.MaxInt64 / 2, 1 << 62, 1 << 48, 1<<48 + 1, 1 << 20, 65536}).Draw(t, "hugen")
+		}
 	}
 	return op
 }
@@ -295,6 +301,9 @@ func runWrapperScanAt(res *vkit.Result, tr *tree.BTree, m *Model, op WOp, sitePr
 		res.Class("limit-exact")
 	default:
 		res.Class("limit-beyond-matches")
+	}
+	if op.N >= 1<<48 {
+		res.Class("limit-of-2^48-or-more")
 	}
 	res.Class("filter-" + filterNames[op.Filter])
 	return inside, true
